@@ -661,3 +661,31 @@ func replayMain(t *testing.T, path string) {
 	}
 	os.Exit(code)
 }
+
+// runSub executes f as a further bubble (used by Post checks that need reference
+// executions, e.g. the serial orders of C19). The sub-run replays the generation streams
+// of the parent run, so it sees the same workload at the same simulated instants.
+func runSub(parent *Ctx, cfg simrt.Config, f func(c *Ctx)) (*Ctx, simrt.RunResult) {
+	simos.Reset()
+	simldb.Reset()
+	for i := 0; i < 64; i++ {
+		simrt.SetMapMode(i, simrt.MapSorted)
+	}
+	resetGlobals()
+	tape := simrt.ReplayTape(parent.T.Seed, parent.T.Streams())
+	c := &Ctx{T: tape, Prop: parent.Prop, Tier: parent.Tier, Var: parent.Var, Faults: map[string]int64{}, Probes: map[string]int64{},
+		States: map[uint64]struct{}{}, Keep: map[string]interface{}{}}
+	res := simrt.Run(theT, tape, cfg, func(w *simrt.World) {
+		c.W = w
+		defer func() {
+			for i := len(c.Cleanups) - 1; i >= 0; i-- {
+				func() {
+					defer func() { recover() }()
+					c.Cleanups[i]()
+				}()
+			}
+		}()
+		f(c)
+	})
+	return c, res
+}
